@@ -243,7 +243,7 @@ def run(pid, tier, seed):
     if REPLAY is None:
         # design level, independent of the implementation: the rewrite MODEL as a transition system over the rule universe -
         # every transition sound (action property), flags truthful, quadratic bound, and termination as LIVENESS (<>[] reduced)
-        n_ts = (1300 if pid == "C11" else 500) if tier == "quick" else 6000
+        n_ts = (800 if pid == "C11" else 400) if tier == "quick" else 6000
         ts_in = [t for t in gen.dedup(rnd.sample(gen.rule_patterns(tier), n_ts) + gen.chains(8)[:40] + gen.constant_trees(seed + 5, 60)) if J.size(t) <= 30]
         work2 = tlcrun.scratch_dir("rts")
         try:
